@@ -2,11 +2,29 @@
 """Regenerate /verif/MANIFEST.json from the table below (edit the table, run the script)."""
 import json, subprocess
 
+GEN = 'Generated-input search (pgregory.net/rapid, sharded over processes, seeds derived from VERIF_SEED) judged by an explicit oracle; failures are shrunk and saved as JSON replay files that re-run without rapid. Exploration: it shows the property on the cases explored and finds violations, it never establishes absence.'
+KIT = 'Trusted: the oracle kit (exact integer cross products / winding numbers, math/big areas, float distances with a guard band), unit-tested against math/big in setup_cmd.'
 CLAIMED = {
  # id: (technique, level text, level note, design ref)
- 'C01': ('property-based testing (rapid): generated closed path sets x 16 (clip type, fill rule) x 3 entry points against an exact winding-number oracle at probe points outside the 2-unit band; shrunk failures saved as JSON replay',
-         'Generated-input search: every case is judged against the meaning of the operation (exact winding number of integer probe points placed in the faces of the arrangement), not against golden vertex lists; exploration, never absence.',
-         'Trusted: the oracle kit (exact integer cross products / winding, float distances with a guard). Faces thinner than ~3 units are not probed (inside the band).', 'DESIGN.md section 7 C01'),
+ 'C01': ('property-based testing (rapid): generated closed path sets x 16 (clip type, fill rule) x 3 entry points against an exact winding-number oracle at probe points outside the 2-unit band',
+         GEN + ' Every case is judged against the meaning of the operation (exact winding number of integer probe points placed in the faces of the arrangement), not against golden vertex lists.',
+         KIT + ' Faces thinner than ~3 units are not probed (inside the band). Listed findings F29 (call-site attribution through the split-drop hook) and F30 (input class kit.NearDegenerate) are excused and counted.', 'DESIGN.md section 7 C01'),
+ 'C02': ('property-based testing (rapid): validity predicate over generated boolean results (vertex rules, winding in {0,1} off the solution edges, re-union and option metamorphic relations)',
+         GEN, KIT + ' preserveCollinear / reverseSolution are set through the verif hook.', 'DESIGN.md section 7 C02'),
+ 'C06': ('property-based testing (rapid): generated rectangles x closed paths biased to corners/edges of the rectangle, exact winding-number oracle inside/outside the rectangle',
+         GEN, KIT, 'DESIGN.md section 7 C06'),
+ 'C11': ('property-based testing (rapid): generated rectangles x open polylines; sub-polyline / order / coverage oracle',
+         GEN, KIT + ' Coverage is judged at sample points farther than 5 units from the rectangle boundary.', 'DESIGN.md section 7 C11'),
+ 'C14': ('property-based testing (rapid): hostile operand pool vs math/big oracles for Area64, IsPositive64, PointInPolygon, GetBounds64, isCollinear, productsAreEqual, CrossProduct',
+         GEN, KIT + ' Listed finding F5 (triSign(1)==0) is excused for operands equal to +1 only.', 'DESIGN.md section 7 C14'),
+ 'C15': ('property-based testing (rapid): generated paths with collinear runs/spikes/duplicates; validity predicate (sub-sequence, exact area, winding / ray-crossing invariance, no collinear triple left, idempotence)',
+         GEN, KIT + ' Listed finding F5 is excused only for paths in which two vertices differ by exactly 1 in a coordinate.', 'DESIGN.md section 7 C15'),
+ 'C16': ('property-based testing (rapid): generated zig-zag / collinear paths x epsilon x 4 API variants; exact rational distance oracle plus translation / power-of-two scaling metamorphic relations',
+         GEN, KIT, 'DESIGN.md section 7 C16'),
+ 'C17': ('property-based testing (rapid): metamorphic relations over spelling transforms (permute, rotate, repeat, reverse, swap, 8 lattice symmetries) and repeated identical calls',
+         GEN, KIT + ' The library is compared with itself; listed findings F29/F30 excused by call site / input class.', 'DESIGN.md section 7 C17'),
+ 'C19': ('property-based testing (rapid): metamorphic set identities between the four clip types (exact areas, point membership), including inputs with thousands of vertices in the thorough tier',
+         GEN, KIT + ' Area identities are allowed 2 x total input edge length (the statement\'s bound) plus the area of lobes recorded by the split-drop hook while F29 is listed.', 'DESIGN.md section 7 C19'),
 }
 NOT_YET = {}
 
